@@ -79,6 +79,14 @@ Theorem C07_strip_punct_chars : forall U steps s x,
 Proof. exact strip_punct_chars. Qed.
 Print Assumptions C07_strip_punct_chars.
 
+(* strip_punct ONLY DELETES: for every text and step list the result is a subsequence of the input (same characters
+   in the same order, possibly with gaps) -- the strongest "what must not change" statement for a normalisation
+   whose replacements are "" or a group of the match; it implies the two theorems above *)
+Theorem C07_strip_punct_only_deletes : forall U steps s,
+  sublist (strip_punct U steps s) s.
+Proof. exact strip_punct_sublist. Qed.
+Print Assumptions C07_strip_punct_only_deletes.
+
 (* non-vacuity: the live chain on a concrete antecedent *)
 Example C07_strip_punct_example :
   strip_punct Gen.Unicode.U Gen.StripPunct.strip_punct_steps
